@@ -151,7 +151,7 @@ Clause(g, x) ==
   LET r == g.rts[x] IN
   CASE g.last = "nonq_pfx"  -> "pfxlimit"
     [] g.last = "failconn"  -> "failconn"
-    [] StickyDiffers(g) /\ (g.restarting \/ g.last \in {"nonq", "nonq_nogr", "qual", "qual2", "eor", "up"}) -> "sticky"
+    [] StickyDiffers(g)     -> "sticky"
     [] g.llever -> "llgr"            \* a long-lived period has begun earlier in this history
     [] g.last = "nonq_nogr" -> "nogr"
     [] g.last = "nonq"      -> "nonq"
